@@ -48,6 +48,12 @@ static void emit_nd(const char* part, int d, const int* dims) {
 }
 template <class P> static void loopnd(int which, const char* name, P&& part) {
     g_boxes.clear(); int dims[3] = {5, 3, 2};
+    // a huge grainsize on one axis means "never split this axis": the choice of the axis to split (size / grainsize ratios compared by cross-multiplication)
+    // must not be fooled by it (products near 2^64)
+    const size_t HUGE = size_t(1) << 63;
+    if (which == 5) { int d2[3] = {16, 5, 0}; tbb::parallel_for(tbb::blocked_range2d<size_t>(0, 16, 1, 0, 5, HUGE), [](const tbb::blocked_range2d<size_t>& r) { g_boxes.push_back({{(int)r.rows().begin(), (int)r.cols().begin(), 0}, {(int)r.rows().end(), (int)r.cols().end(), 0}, 2}); }, part); emit_nd(name, 2, d2); return; }
+    if (which == 6) { int d3[3] = {4, 9, 3}; tbb::parallel_for(tbb::blocked_range3d<size_t>(0, 4, HUGE, 0, 9, 2, 0, 3, HUGE), [](const tbb::blocked_range3d<size_t>& r) { g_boxes.push_back({{(int)r.pages().begin(), (int)r.rows().begin(), (int)r.cols().begin()}, {(int)r.pages().end(), (int)r.rows().end(), (int)r.cols().end()}, 3}); }, part); emit_nd(name, 3, d3); return; }
+    if (which == 7) { int d3[3] = {6, 3, 7}; tbb::parallel_for(tbb::blocked_nd_range<size_t, 3>({0, 6, HUGE}, {0, 3, HUGE}, {0, 7, 1}), [](const tbb::blocked_nd_range<size_t, 3>& r) { g_boxes.push_back({{(int)r.dim(0).begin(), (int)r.dim(1).begin(), (int)r.dim(2).begin()}, {(int)r.dim(0).end(), (int)r.dim(1).end(), (int)r.dim(2).end()}, 3}); }, part); emit_nd(name, 3, d3); return; }
     if (which == 2) { tbb::parallel_for(tbb::blocked_range2d<int>(0, 5, 2, 0, 3, 1), [](const tbb::blocked_range2d<int>& r) { g_boxes.push_back({{r.rows().begin(), r.cols().begin(), 0}, {r.rows().end(), r.cols().end(), 0}, 2}); }, part); emit_nd(name, 2, dims); }
     else if (which == 3) { tbb::parallel_for(tbb::blocked_range3d<int>(0, 5, 2, 0, 3, 1, 0, 2, 1), [](const tbb::blocked_range3d<int>& r) { g_boxes.push_back({{r.pages().begin(), r.rows().begin(), r.cols().begin()}, {r.pages().end(), r.rows().end(), r.cols().end()}, 3}); }, part); emit_nd(name, 3, dims); }
     else { tbb::parallel_for(tbb::blocked_nd_range<int, 3>({0, 5, 1}, {0, 3, 2}, {0, 2, 1}), [](const tbb::blocked_nd_range<int, 3>& r) { g_boxes.push_back({{r.dim(0).begin(), r.dim(1).begin(), r.dim(2).begin()}, {r.dim(0).end(), r.dim(1).end(), r.dim(2).end()}, 3}); }, part); emit_nd(name, 3, dims); }
@@ -73,7 +79,7 @@ int main(int argc, char** argv) {
         u64 sizes[] = {0, 1, 2, 3, 5, 7, 8, 9, 13, 16, 17, 31, 33}; u64 grains[] = {1, 2, 3, 5, 8};
         for (int s = 0; s < nseeds; s++) for (u64 n : sizes) for (u64 g : grains) for (int p = 0; p < 4; p++) { if (stuck >= 10) break; exec(seed0 + s * 977 + n * 31 + g * 7 + p, dens[(s + p) % 8], [&] { one_1d(p, n, g); }); }
     } else if (mode == "rnd") {
-        for (int s = 0; s < nseeds; s++) for (int w = 2; w <= 4; w++) for (int p = 0; p < 3; p++) { if (stuck >= 10) break;
+        for (int s = 0; s < nseeds; s++) for (int w = 2; w <= 7; w++) for (int p = (w >= 5 ? 1 : 0); p < 3; p++) { if (stuck >= 10) break;      // (the huge-grain cases 5-7 run under the adaptive partitioners only)
             exec(seed0 + s * 131 + w * 7 + p, dens[s % 8], [&] { if (p == 0) loopnd(w, "simple", tbb::simple_partitioner()); else if (p == 1) loopnd(w, "auto", tbb::auto_partitioner()); else loopnd(w, "static", tbb::static_partitioner()); }); }
     } else if (mode == "items") {
         for (int s = 0; s < nseeds; s++) for (int w = 0; w < 4; w++) { if (stuck >= 10) break; exec(seed0 + s * 17 + w, dens[s % 8], [&] { items_case(w); }); }
